@@ -285,7 +285,7 @@ func c12RunOnce(cfg c12Cfg, src string) c12Res {
 	select {
 	case r := <-done:
 		return r
-	case <-time.After(60 * time.Second):
+	case <-hangAfter(60 * time.Second):
 		return c12Res{Status: "hang", Trace: "-", Probe: "-", Fresh: "-"}
 	}
 }
@@ -894,7 +894,7 @@ func execC12Prog(ops []Op) []string {
 		in.WriteString(strings.Join(op.Args, " "))
 		in.WriteByte('\n')
 	}
-	ctx, cancel := context.WithTimeout(context.Background(), 90*time.Second)
+	ctx, cancel := hangCtx(90 * time.Second)
 	defer cancel()
 	cmd := exec.CommandContext(ctx, os.Args[0])
 	cmd.Env = append(os.Environ(), "C12_WORKER=1", "GOMAXPROCS=2")
